@@ -53,7 +53,9 @@ def build(parallel=False):
 
 def wv(args, timeout=3000, parallel=False, env=None, check=True):
     build(parallel)
-    return sh([WV_PAR if parallel else WV] + list(args), timeout=timeout, env=env, check=check)
+    # tools/coverage.sh substitutes a coverage-instrumented build of the same harness (serial flavour only)
+    binary = WV_PAR if parallel else (os.environ.get("VERIF_WV_BIN") or WV)
+    return sh([binary] + list(args), timeout=timeout, env=env, check=check)
 
 
 # ------------------------------------------------------------------------------------------------
@@ -333,8 +335,10 @@ class Ctx:
             "violations": len(self.violations),
         }
         ev["coverage"].update(self.notes)
-        os.makedirs(os.path.join(ROOT, "evidence"), exist_ok=True)
-        with open(os.path.join(ROOT, "evidence", self.prop + ".json"), "w") as f:
+        # runs against a deliberately broken tree (tools/seed.py) write their evidence elsewhere
+        evdir = os.environ.get("VERIF_EVIDENCE_DIR") or os.path.join(ROOT, "evidence")
+        os.makedirs(evdir, exist_ok=True)
+        with open(os.path.join(evdir, self.prop + ".json"), "w") as f:
             json.dump(ev, f, indent=1)
         log("[%s] tier=%s seed=%d states=%d transitions=%d traces=%d violations=%d known=%d wall=%.1fs" % (self.prop, self.tier, self.seed, self.states, self.transitions, self.traces, len(self.violations), len(self.known_hits), time.time() - self.t0))
         return 1 if self.violations else 0
